@@ -27,7 +27,7 @@ class Bound:
     def __init__(self, max_nodes=4, max_depth=2, max_open=2, max_rings=2, bonds=('=',),
                  bond_positions=('chain', 'ring', 'pre', 'post'), ring_styles=('d', 'p', 'pp'),
                  max_bonds=None, names=None, annots=None, mults=(), max_mults=0,
-                 mult_on=('node', 'branch'), max_tokens=None, branch_after_branch=True):
+                 mult_on=('node', 'branch'), max_tokens=None, branch_after_branch=True, names_free=False):
         self.max_nodes = max_nodes
         self.max_depth = max_depth
         self.max_open = max_open
@@ -43,6 +43,7 @@ class Bound:
         self.mult_on = tuple(mult_on)
         self.max_tokens = max_tokens
         self.branch_after_branch = branch_after_branch
+        self.names_free = names_free
 
     def to_json(self):
         return dict(self.__dict__)
@@ -60,11 +61,15 @@ INIT = ((), 0, 0, 'S', (), 0, 0, 0, 0, -1, (), frozenset())
 
 
 def _node_tokens(nn, na, B):
-    name = (B.names[nn % len(B.names)] if B.names else NAMES[nn])
-    yield ('n', name, ''), na
-    if B.annots and na == 0:
-        for a in B.annots:
-            yield ('n', name, a), 1
+    if B.names_free:
+        names = B.names
+    else:
+        names = [(B.names[nn % len(B.names)] if B.names else NAMES[nn])]
+    for name in names:
+        yield ('n', name, ''), na
+        if B.annots and na == 0:
+            for a in B.annots:
+                yield ('n', name, a), 1
 
 
 def succ(state, B):
